@@ -710,7 +710,9 @@ def rule_seedarms(ctx):
 
 
 def rules(tier):
-    return [rule_metric, rule_corerank, c07.rule_convpair] + _rules(tier)
+    from . import intnarrow
+    return [rule_metric, rule_corerank, c07.rule_convpair, c07._address_rule(),
+            intnarrow.make_rule("R-C08-narrow", lambda f: f["d"]["krate"] == "linfa_clustering" and any(x in f["d"]["path"] + " " + (f["d"].get("self_adt") or "") + " " + fn_file(f) for x in ("dbscan", "optics", "Dbscan", "Optics")), "DBSCAN and OPTICS (cluster ids, queue marks, neighbour counts)")] + _rules(tier)
 
 
 def _rules(tier):
